@@ -3786,7 +3786,7 @@ class AllConnGraph(nx.DiGraph):
             arr = np.arange(shape_to_len(root_shape)).reshape(root_shape)
             for inds in src_inds_list:
                 arr = inds.indexed_val(arr)
-            return arr
+            return arr.ravel()
 
     def convert_get(self, node, val, src_units, tgt_units, src_inds_list=(), units=None,
                     indices=None, get_remote=False):
